@@ -20,8 +20,8 @@ def run(ctx):
     quick = ctx.tier == "quick"
     curve_check.run_engine(
         ctx, "C03_", slices(ctx),
-        n_random=150 if quick else 1500, rand_len=30,
-        walk_limit=120 if quick else None)
+        n_random=150 if quick else 600, rand_len=30,
+        walk_limit=120 if quick else 200)
     if not quick:
         curve_check.repo_test_traces(ctx, "C03_")
     ctx.assumptions += [
